@@ -1014,6 +1014,17 @@ impl<'a> RepositoryUpdate<'a> {
                     self.log.warn(format_args!(
                         "failed to process delta: {}", err,
                     ));
+
+                    // Deltas are applied in place. Unless we failed before
+                    // touching the archive at all, its content now differs
+                    // from what its state claims. Since we don’t know
+                    // whether the snapshot update will succeed, get rid of
+                    // the archive so it can’t ever be mistaken for a
+                    // consistent copy.
+                    if i > 0 || !err.is_request_error() {
+                        drop(archive);
+                        self.remove_dirty_archive()?;
+                    }
                     return Ok(Some(SnapshotReason::ConflictingDelta))
                 }
             }
@@ -1035,6 +1046,21 @@ impl<'a> RepositoryUpdate<'a> {
 
         self.log.debug(format_args!("Delta update completed."));
         Ok(None)
+    }
+
+    /// Removes an archive that was left inconsistent by a failed delta.
+    fn remove_dirty_archive(&mut self) -> Result<(), RunFailed> {
+        if let Err(err) = fs::remove_file(self.path.as_ref()) {
+            if !matches!(err.kind(), io::ErrorKind::NotFound) {
+                error!(
+                    "Fatal: Failed to delete inconsistent RRDP repository \
+                     file {}: {}",
+                    self.path.display(), err
+                );
+                return Err(RunFailed::fatal())
+            }
+        }
+        Ok(())
     }
 
     /// Calculates the slice of deltas to follow for updating.
